@@ -19,7 +19,7 @@ RULE = ('connected routines: every connected labelled 4-node graph with two vert
         'weights), named bridge-rich 5-6 node graphs (path, cycle, star+edge, bow-tie, bridged triangles, tree+chord), '
         'strongly connected 4-6 node digraphs (rings with 0-2 chords, triangles sharing a node); budgets 1-2 iterations '
         '(thorough 3); latticisers: all n! initial orders x k iterations, default D and a symmetric caller-supplied D (as float64, '
-        'int64 and uint8 arrays); '
+        'int64 and uint8 arrays), directed latticisers also with two asymmetric D; '
         'randomize_graph_partial_und: masks none / one cell / all-but-one cell; ALL generator answers per '
         'configuration; rejection clause: every disconnected graph n<=5 and every asymmetric 0/1 3-node matrix; '
         'non-trivial configuration = one where at least one candidate swap was refused and one accepted '
@@ -28,6 +28,8 @@ ASSUMPTIONS = ['caller-supplied D for the undirected latticisers is symmetric (t
                'masks are symmetric', 'state merging as in C01']
 
 SYM_D4 = [[0, 1, 3, 2], [1, 0, 2, 3], [3, 2, 0, 1], [2, 3, 1, 0]]
+ASYM_D4 = [[0, 1, 2, 3], [3, 0, 1, 2], [2, 3, 0, 1], [1, 2, 3, 0]]       # clockwise ring distance
+ASYM2_D4 = [[0, 1, 5, 2], [4, 0, 2, 7], [1, 6, 0, 3], [8, 2, 1, 0]]      # no symmetry at all
 
 
 def default_D(n):
@@ -91,8 +93,11 @@ def catalogue(thorough):
                     continue
                 if not und and not ss.strongly_connected(W):
                     continue
-            for Dname, D in (('default', None), ('sym', SYM_D4), ('sym_uint8', SYM_D4), ('sym_int', SYM_D4)):
+            for Dname, D in (('default', None), ('sym', SYM_D4), ('sym_uint8', SYM_D4), ('sym_int', SYM_D4),
+                             ('asym', ASYM_D4), ('asym2', ASYM2_D4)):
                 if D is not None and n != 4:
+                    continue
+                if Dname.startswith('asym') and und:
                     continue
                 if Dname in ('sym_uint8', 'sym_int') and not (thorough or tag in ('path4', 'und4_0123', 'dir4_012330', 'dcycle4')):
                     continue
